@@ -8,7 +8,7 @@ def wfSend (L : Lim) (s : Send) : Bool :=
   wfStr L s.nameLocation && wfParams L s.params && wfD L s.event && wfD L s.eventExpr && wfD L s.typeValue &&
   wfD L s.typeExpr && wfU L s.delayMs && wfD L s.delayExpr
 
-theorem Reads.send {s : Send} (h : wfSend small s = true) : Reads readSend (bytesOf (opsSend s)) s := by
+theorem Reads.send {s : Send} (h : wfSend typeLim s = true) : Reads readSend (bytesOf (opsSend s)) s := by
   obtain ⟨name, target, targetExpr, content, nameList, nameLocation, params, event, eventExpr, typeValue,
     typeExpr, delayMs, delayExpr⟩ := s
   simp only [wfSend, Bool.and_eq_true] at h
@@ -32,7 +32,7 @@ def wfExec (L : Lim) : Exec → Bool
   | .cancel id e => wfStr L id && wfD L e
   | .assign e l => wfD L e && wfD L l
 
-theorem Reads.exec {e : Exec} (h : wfExec small e = true) : Reads readExec (bytesOf (opsExec e)) e := by
+theorem Reads.exec {e : Exec} (h : wfExec typeLim e = true) : Reads readExec (bytesOf (opsExec e)) e := by
   unfold readExec
   cases e with
   | ifc c a b =>
@@ -88,7 +88,7 @@ def regionReader : Prog (Nat × List Exec) := do
   let l ← readList readExec
   pure (cid, l)
 
-theorem Reads.region {c : Nat × List Exec} (h : wfRegion small c = true) :
+theorem Reads.region {c : Nat × List Exec} (h : wfRegion typeLim c = true) :
     Reads regionReader (bytesOf (uintOp c.1 :: Rfsm.Codec.opsList opsExec c.2)) c := by
   obtain ⟨cid, l⟩ := c
   simp only [wfRegion, Bool.and_eq_true, List.all_eq_true] at h
@@ -96,43 +96,52 @@ theorem Reads.region {c : Nat × List Exec} (h : wfRegion small c = true) :
   exact Reads.bind (Reads.wid h.1.1) <|
     Reads.bind_pure (Reads.opsList l h.1.2 (fun a ha => Reads.exec (h.2 a ha))) rfl
 
-theorem versionText_wf : wfStr small versionText = true := by decide
+theorem versionText_wf : wfStr typeLim versionText = true := by decide
 
-/-- the body of `FsmReader::read` on the image without its version string -/
-theorem Reads.fsmBody {f : Fsm} (h : wfFsm small f = true) :
-    Reads readFsmBody (bytesOf ((opsFsm f).drop 1)) f := by
+/-- the part of `FsmReader::read` after the binding ordinal, on the rest of the image -/
+theorem Reads.fsmRest {f : Fsm} (h : wfFsm typeLim f = true) :
+    Reads (readFsmRest f.name f.datamodel f.binding) (bytesOf ((opsFsm f).drop 4)) f := by
   obtain ⟨name, datamodel, binding, pseudoRoot, script, states, transitions, content⟩ := f
   simp only [wfFsm, Bool.and_eq_true, List.all_eq_true] at h
   obtain ⟨⟨⟨⟨⟨⟨⟨⟨⟨h1, h2⟩, h3⟩, h4⟩, h5⟩, h6⟩, h7⟩, h8⟩, h9⟩, h10⟩ := h
-  unfold opsFsm readFsmBody
+  unfold opsFsm readFsmRest
   simp only [List.cons_append, List.drop_succ_cons, List.drop_zero]
   norm_bytes
-  have hb : binding.ordinal < 256 := by cases binding <;> simp [Binding.ordinal]
-  have hbind : ∀ (k : Binding → Prog Fsm) b x, Reads (k binding) b x →
-      Reads ((match binding.ordinal with
-        | 1 => Pure.pure Binding.early
-        | 2 => Pure.pure Binding.late
-        | n => do pPanic (.bindingOrdinal n); Pure.pure Binding.early) >>= k) b x := by
-    intro k b x hk
-    cases binding <;> exact Reads.bind (b1 := []) (Reads.pure _) hk
-  refine Reads.bind (Reads.wstr h1) <| Reads.bind (Reads.wstr h2) <| Reads.bind (Reads.u8 _ hb) <| hbind _ _ _ ?_
   exact Reads.bind (Reads.wid h3) <| Reads.bind (Reads.wid h4) <|
     Reads.bind (Reads.opsList states h5 (fun a ha => Reads.state (h6 a ha))) <|
     Reads.bind (Reads.opsList transitions h7 (fun a ha => Reads.transition (h8 a ha))) <|
     Reads.bind_pure (Reads.opsList content h9 (fun a ha => Reads.region (h10 a ha))) rfl
 
+theorem Reads.hasError : Reads pHasError [] false := by
+  intro rest t n pn
+  exact ⟨t, n, rfl⟩
+
+theorem fromOrdinal_ordinal (b : Binding) : Binding.fromOrdinal b.ordinal = some b := by
+  cases b <;> rfl
+
 theorem image_split (f : Fsm) : imageOf f = (Op.str versionText).bytes ++ bytesOf ((opsFsm f).drop 1) := by
   simp [imageOf, opsFsm]
 
+theorem image_split4 (f : Fsm) : imageOf f = (Op.str versionText).bytes ++ ((Op.str f.name).bytes ++
+    ((Op.str f.datamodel).bytes ++ ((uintOp f.binding.ordinal).bytes ++ bytesOf ((opsFsm f).drop 4)))) := by
+  simp [imageOf, opsFsm]
+
 /-- `FsmReader::read` decodes the image of a well-formed model exactly, whatever follows it -/
-theorem Reads.fsm {f : Fsm} (h : wfFsm small f = true) : Reads readFsmProg (imageOf f) (ReadResult.ok f) := by
-  rw [image_split]
+theorem Reads.fsm {f : Fsm} (h : wfFsm typeLim f = true) : Reads readFsmProg (imageOf f) (ReadResult.ok f) := by
+  have hw := h
+  simp only [wfFsm, Bool.and_eq_true] at hw
+  obtain ⟨⟨⟨⟨⟨⟨⟨⟨⟨h1, h2⟩, _⟩, _⟩, _⟩, _⟩, _⟩, _⟩, _⟩, _⟩ := hw
+  have hb : f.binding.ordinal < 256 := by cases f.binding <;> simp [Binding.ordinal]
+  rw [image_split4]
   unfold readFsmProg
   refine Reads.bind (Reads.wstr versionText_wf) ?_
   simp only [if_true]
-  exact Reads.bind_pure (Reads.fsmBody h) rfl
+  refine Reads.bind (Reads.wstr h1) <| Reads.bind (Reads.wstr h2) <| Reads.bind (Reads.u8 _ hb) <|
+    Reads.bind (b1 := []) Reads.hasError ?_
+  simp only [Bool.false_eq_true, if_false, fromOrdinal_ordinal]
+  exact Reads.of_eq (Reads.bind (Reads.fsmRest h) (Reads.bind_pure Reads.hasError rfl)) (List.append_nil _)
 
-theorem readImageFull_image {f : Fsm} (h : wfFsm small f = true) :
+theorem readImageFull_image {f : Fsm} (h : wfFsm typeLim f = true) :
     readImageFull (imageOf f) = (ReadResult.ok f, false) := by
   obtain ⟨t, n, hr⟩ := Reads.fsm h [] 0 0 none
   simp only [List.append_nil] at hr
@@ -140,7 +149,7 @@ theorem readImageFull_image {f : Fsm} (h : wfFsm small f = true) :
 
 /-- every strict prefix of the image of a well-formed model leaves the protocol reader in its error
 state (`has_error()` is true when `FsmReader::read` returns — if it returns) -/
-theorem prefix_has_error {f : Fsm} (h : wfFsm small f = true) (k : Nat) (hk : k < (imageOf f).length) :
+theorem prefix_has_error {f : Fsm} (h : wfFsm typeLim f = true) (k : Nat) (hk : k < (imageOf f).length) :
     (readFsmProg.run (RState.init ((imageOf f).take k))).2.ok = false :=
   prefix_sets_error readFsmProg (imageOf f) (ReadResult.ok f) (Reads.fsm h) k hk 0 0 none
 
